@@ -27,6 +27,22 @@ def gen_consts(rec_steps, **over):
     return consts(**c)
 
 
+def nested_orig_consts():
+    """an input added after the recording was made (missing key, run-original) whose original calls another intercepted
+    input that *is* in the recording (directly or from a worker thread)"""
+    return gen_consts(2, MaxPSteps=2, MaxRuns=2, InCalls=[('ia1', 2), ('ia5', 1)], InnerCall=('ia1', 2), OutAliases=['oa1'],
+                      InOpts=[opts(), opts(runOrig=True)], FreeBodies=['', 'nestSame', 'nestOther'],
+                      Toggles=0, StartEnabled=[True], Ctl=[], PlayFaults=[])
+
+
+def after_interrupt_consts():
+    """a recorded run that is cut short inside an intercepted body, survived by the service, then a replay of an earlier
+    recording on the same recorder (and thread)"""
+    return gen_consts(1, MaxPSteps=1, MaxRuns=3, MaxRecs=2, InCalls=[('ia1', 1)], OutAliases=['oa1'], Bodies=['plain', 'interrupt'],
+                      OutResults=[('val', 'v1'), ('int', 'BI')], Ends=['ret', 'interrupt'], InOpts=[opts()],
+                      Toggles=0, StartEnabled=[True], Ctl=[], PlayFaults=[])
+
+
 def run(rep, tier, seed):
     rep.rule = ('behaviours = complete paths of the TLC state graph of Recorder.tla: a recorded program, then one or '
                 'two replays of *arbitrary* programs (calls present or absent in the recording) whose interceptions '
@@ -63,6 +79,8 @@ def run(rep, tier, seed):
             chk.generate('genv', gen_consts(1, InOpts=IN_OPTS_NOFB, InCalls=[('ia2', 1), ('ia3', 0), ('ia4', 2)],
                                             OutAliases=['oa2'], MaxRuns=2, Toggles=0, StartEnabled=[True], Ctl=[]),
                          cassettes=('memory',), n_conc=2, sample=1500, cap=2500)
+            chk.generate('nestedorig', nested_orig_consts(), cassettes=('memory',), n_conc=1, sample=2000, cap=3000)
+            chk.generate('afterintr', after_interrupt_consts(), cassettes=('memory',), n_conc=1, sample=2000, cap=3000)
         else:
             chk.check('chk', gen_consts(3, MaxRuns=2, Toggles=0, StartEnabled=[True]), invariants=INVS, timeout=3000)
             chk.generate('gen1', gen_consts(1, MaxRuns=2, Toggles=0, StartEnabled=[True]),
@@ -82,6 +100,8 @@ def run(rep, tier, seed):
                          cassettes=('memory', 'file'), n_conc=2, sample=40000, cap=60000, max_states=600000)
             chk.generate('gen2', gen_consts(2, InCalls=[('ia1', 1), ('ia5', 1)]), cassettes=('memory', 'file'),
                          n_conc=2, sample=80000, cap=120000, max_states=600000)
+            chk.generate('nestedorig', nested_orig_consts(), cassettes=('memory', 'file'), n_conc=1, all_paths=True, cap=100000)
+            chk.generate('afterintr', after_interrupt_consts(), cassettes=('memory', 'file'), n_conc=1, all_paths=True, cap=100000)
     finally:
         chk.close()
 
